@@ -226,10 +226,13 @@ def tie_units(crates, kind):
 
 
 def _coq_dep_stamp():
+    """hash of every compiled file of the main development (the tie files may depend on any of them)"""
     h = hashlib.sha256()
-    for f in ("Mir.vo", "MirSem.vo", "MirLemmas.vo", "BlockModes.vo", os.path.join("Tie", "TieLib.vo")):
-        pth = os.path.join(COQ, f)
-        h.update(open(pth, "rb").read() if os.path.exists(pth) else b"missing")
+    for d in (COQ, os.path.join(COQ, "Tie")):
+        for f in sorted(os.listdir(d)):
+            if f.endswith(".vo") and not f.startswith(("Tie_", "Pins_")):
+                h.update(f.encode())
+                h.update(open(os.path.join(d, f), "rb").read())
     return h.hexdigest()
 
 
@@ -740,7 +743,8 @@ def finish(v, pid, obl, matcher, level, trusted, assumptions, rule, extra=None):
         violations.append("obligation")
     cov = dict(
         obligations=obl["obligations"], discharged=obl["discharged"],
-        checker_cmd="cd coq && make -j16 && coqc -Q . BM Props/%s.v  (Print Assumptions under every theorem)" % pid,
+        checker_cmd="cd coq && make -j16 && coqc -Q . BM Props/%s.v  (Print Assumptions under every theorem); translator/rs2v /repo .work/gen && "
+                    "coqc -Q coq BM -Q .work/gen BMGen coq/Tie/{Tie,Pins}_<crate>*.v for the crates of this property" % pid,
         trusted_base=trusted, theorems=obl["theorems"],
         evaluations=v.evaluations, distinct_nontrivial=len(v.nontrivial), rule=rule,
         samples=v.samples[:6], traces_validated_against_impl=v.traces,
